@@ -57,6 +57,8 @@ func init() {
 	add("C01", "R01f: under Stump.Update, Pollard.Modify and MapPollard.Modify every store into a NumLeaves field is an increment of the value read from that field.", "")
 	add("C11", "R11i = R01f for (*Stump).Update.", "")
 	add("C07", "R07g: in the closure of (*Proof).Update every discarded error of a position function is excluded by a dominating guard, by a reviewed lemma that covers every failing return of the callee, or by the reviewed caller->callee table (valid while the callee has the reviewed number of failing returns). R07h: a list parameter walked with a forward-only cursor against a loop counter is sorted on its way from the exported entry.", "")
+	add("C10", "R10j (E7 layouts): in GetLeafPosition, GetLeafHashPositions and GetHash a position read from the leaf index is translated from the TotalRows layout, a caller's position from the tree layout, and results are in the tree layout.", "")
+	add("C11", "R11j: under (*Stump).Update no narrowing integer conversion takes a value derived from a length.", "")
 	add("C12", "R12h: no live instance of the struct that carries the mutex is overwritten as a whole and its lock field is never re-assigned.", "")
 	add("C15", "R15h: under GenerateCachingSchedule no write reaches a list recorded by AddBlockSummary or anything that may alias it (sub-slices, phi merges, callee parameters, handed-back results). R15i: no allocation of the generator is sized by its memory-limit parameter.", "")
 	add("C03", "R03j: in the hashing core a cursor over a list of hashes advances only where the hash at the cursor was read in that iteration. R03c also requires, in a verifier that compares the hash and target counts, that every success return lies behind that comparison.", "")
